@@ -479,9 +479,9 @@ func runGROWSIBS(c *Ctx) {
 	}
 	// the growth test: as in GROWCHECK — a looped (bool, error) call of Insert that is handed a node
 	var test *ssa.Function
-	for _, ci := range CallsOf(ins) {
-		call, ok := ci.(*ssa.Call)
-		if !ok || !inCycle(call.Block()) {
+	for _, rs := range regionSites(c, ins) {
+		call, ok := rs.ci.(*ssa.Call)
+		if !ok || !rs.inLoop() {
 			continue
 		}
 		hasNode := false
@@ -578,7 +578,11 @@ func runGROWSIBS(c *Ctx) {
 	}
 	// relation under which grow promotes a key: the block that appends the key to the new root
 	growRel := map[string]ssa.Instruction{}
-	for _, b := range grow.Blocks {
+	var growBlocks []*ssa.BasicBlock
+	for _, gf := range regionOf(c, grow) {
+		growBlocks = append(growBlocks, gf.Blocks...)
+	}
+	for _, b := range growBlocks {
 		if !inCycle(b) {
 			continue
 		}
